@@ -1450,19 +1450,17 @@ impl<'a> Ctx<'a> {
                     edits.push(ins(*be, " }".into()));
                 }
             }
-<<<<<<< HEAD
             if !fs.hide.is_empty() {
                 // hide (fuel 0) ghost definitions this function's proof never needs to unfold (ghost only; a Verus
                 // function header: it must be the first thing in the body; it can only remove facts from the context)
                 let r: Vec<String> = fs.hide.iter().map(|x| format!("hide({x});")).collect();
                 self.cnt.bump("R7_hint");
                 edits.push(ins(block.start + 1, format!("\n        {}", r.join(" "))));
-=======
+            }
             for (n, s) in &fs.innerfns {
                 let Some(at) = an.innerfns.get(*n) else { return Err(format!("lost anchor: {} has no nested fn #{n}", fs.path)) };
                 self.cnt.bump("R7_innerfn");
                 edits.push(ins(*at, format!("\n{}\n        ", s.trim_end())));
->>>>>>> w-defargs
             }
             if !fs.open.is_empty() {
                 // reveal opaque ghost definitions for this function's proof (ghost only)
@@ -1587,6 +1585,7 @@ struct Gen<'a> {
     assumed_depth: usize,
     proved_elsewhere: Vec<String>,
     emitted_fns: HashSet<String>,
+    included: HashSet<String>,
 }
 
 fn kv<'x>(parts: &[&'x str], key: &str) -> Option<&'x str> {
@@ -1685,11 +1684,18 @@ impl<'a> Gen<'a> {
                             }
                         }
                     }
-                    "include" => {
-                        let p = format!("{}/{}", self.contracts, parts.get(1).ok_or("//@include needs a path")?);
+                    "include" | "needs" => {
+                        let rel = parts.get(1).ok_or("//@include needs a path")?.to_string();
+                        // a fragment enters a unit once: `//@needs f` (written inside a fragment whose contracts mention
+                        // f's vocabulary) includes f `assumed` unless the unit has it already
+                        if !self.included.insert(rel.clone()) {
+                            i += 1;
+                            continue;
+                        }
+                        let p = format!("{}/{}", self.contracts, rel);
                         // `//@include f assumed`: the functions of this fragment are proved in another unit of the
                         // same check; here they appear with their contract only (external_body), to keep queries small
-                        let assumed = parts.contains(&"assumed");
+                        let assumed = parts.contains(&"assumed") || cmd == "needs";
                         if assumed {
                             self.assumed_depth += 1;
                         }
@@ -1928,7 +1934,7 @@ pub fn gen(opts: &HashMap<String, String>) -> Result<(), String> {
     let get = |k: &str| opts.get(k).cloned().ok_or(format!("missing --{k}"));
     let cfg = Cfg { on: get("cfg")?.split(',').filter(|s| !s.is_empty()).map(String::from).collect() };
     let ctx = Ctx { cfg: &cfg, srcdir: get("src")?, sources: HashMap::new(), cnt: Counters { r: HashMap::new() }, dropped: vec![] };
-    let mut g = Gen { ctx, contracts: get("contracts")?, out: String::new(), map: vec![], trusted: vec![], assumed_depth: 0, proved_elsewhere: vec![], emitted_fns: HashSet::new() };
+    let mut g = Gen { ctx, contracts: get("contracts")?, out: String::new(), map: vec![], trusted: vec![], assumed_depth: 0, proved_elsewhere: vec![], emitted_fns: HashSet::new(), included: HashSet::new() };
     let tpl = get("template")?;
     set_expanded_path(opts.get("expanded").cloned());
     g.process(&tpl, 0)?;
